@@ -110,7 +110,20 @@ def execute(recipe, faults=(), count_lines=False):
     from sim.world import run_tool
     world = make_world(recipe, faults)
     world.count_lines = count_lines
-    return run_tool(world, recipe["tool"], recipe["argv"])
+    res = run_tool(world, recipe["tool"], recipe["argv"])
+    gaps = sorted(f for f in res.flags if f.startswith("seam-gap:"))
+    if gaps:
+        # the code under test reached for a part of the operating system the
+        # simulator does not model: nothing can be concluded from this run
+        raise SeamGap("the code under test called %s on a simulated path; "
+                      "sim/world.py does not model it (tool %s, argv %r)"
+                      % (", ".join(g[9:] for g in gaps), recipe["tool"],
+                         recipe["argv"]))
+    return res
+
+
+class SeamGap(RuntimeError):
+    """An un-modelled system call met a simulated path (a harness error)."""
 
 
 def initial_fs(recipe):
